@@ -139,6 +139,54 @@ func TestVerifPushdownBounded(t *testing.T) {
 			}
 		}
 	}
+	// a reference filter asks the referenced table every time: the table of the
+	// referenced integration changes while the process runs (it grows as that
+	// integration advances and shrinks when a reorg removes its rows)
+	{
+		tbl := wpg.Table{Name: "t"}
+		var bd []dig.BlockData
+		for _, f := range []string{"log_addr", "block_num", "tx_idx", "log_idx"} {
+			tbl.Columns = append(tbl.Columns, wpg.Column{Name: "c_" + f, Type: "text"})
+			bd = append(bd, dig.BlockData{Name: f, Column: "c_" + f})
+		}
+		tbl.Columns = append(tbl.Columns, wpg.Column{Name: "c_to", Type: "bytea"})
+		for _, op := range []string{"contains", "!contains"} {
+			ev := dig.Event{Name: "Transfer", Type: "event", Inputs: []dig.Input{
+				{Indexed: true, Name: "from", Type: "address"},
+				{Indexed: true, Name: "to", Type: "address", Column: "c_to", Filter: dig.Filter{Op: op, Ref: dig.Ref{Integration: "other", Table: "other_t", Column: "addr"}}},
+				{Name: "value", Type: "uint256"}}}
+			ig, err := dig.New("live", ev, bd, tbl, dig.Notification{}, "")
+			if err != nil {
+				t.Fatal(err)
+			}
+			x := pat(0xd0, pStart, 0, 20) // recipient of transaction 0 of the first block
+			row := fmt.Sprintf("%d/0/1", pStart)
+			has := func(rows []string) bool {
+				for _, r := range rows {
+					if r == row {
+						return true
+					}
+				}
+				return false
+			}
+			for step, present := range []bool{false, true, false, true} {
+				pushRefTable = map[string]bool{}
+				if present {
+					pushRefTable[x] = true
+				}
+				cases++
+				rows, err := storedRows(ts.URL, ig, true)
+				want := present == (op == "contains")
+				if err != nil || has(rows) != want {
+					fails++
+					if fails <= 10 {
+						fmt.Printf("BOUNDED-FAIL reference filter %s, step %d: the referenced table contains the recipient: %v, the row is stored: %v (err=%v)\n", op, step, present, has(rows), err)
+					}
+				}
+			}
+		}
+		pushRefTable = nil
+	}
 	fmt.Printf("BOUNDED cases=%d failures=%d exhaustive=true\n", cases, fails)
 	if fails > 0 {
 		t.Fail()
